@@ -2179,7 +2179,11 @@ def explore(ctx):
                   ["expr", ["node", "ExprYield", [["value", ["name", "v", 4]]]]],
                   ["json", ["o", [["kind", ["s", "alias"]], ["name", ["s", "a"]], ["target_path", ["s", "b.c"]], ["lineno", ["i", 3]]]]],
                   ["json", ["o", [["kind", ["s", "attribute"]], ["name", ["s", "a"]]]]],
-                  ["json", ["o", [["cls", ["s", "ExprBogus"]]]]]]
+                  ["json", ["o", [["cls", ["s", "ExprBogus"]]]]],
+                  ["dumps", ["o", [["a", ["a", [["i", -3], ["n"], ["s", "q\"\n\x7f"]]]]]]], ["loads", ' {"a": [1, 20] , "b":null}'], ["loads", "[1.5]"],
+                  ["loads-decode", '{"kind": "alias", "name": "a"} x'], ["dumps-cli", ["o", [["b", ["a", [["i", 1]]]], ["a", ["o", []]]]]],
+                  ["path", "/a/b", "/a/b/c.py"], ["path", ".", "/x"],
+                  ["fullD", [["/", "p"], [], [], ""], ["obj", "m", [], [], [["Doc.", [1], [1]]], [], [], ["module", ["str", "/p/s/m.py"]]]]]
         ctx.cross_check_extraction(sample)
 
 
